@@ -95,6 +95,8 @@ def run_matrix(tier, seed, report):
     lists = {"inline-3x4": (elems[:3], elems[2:6]), "inline-9x11": (elems[:9], elems[4:15]),
              "serial-10x12": (elems[:10], elems[3:15]), "serial-12x10": (elems[2:14], elems[:10]),
              "square-16": (elems[:16], elems[:16]),
+             # the locally bisected elements are the last leaves: pairs with nested / staggered time intervals on the serial path
+             "serial-mixed-10x12": (elems[:5] + elems[-5:], elems[-6:] + elems[2:8]),
              # many columns: with 1 or 2 workers the pool hands out chunks of several columns (chunk size M // (16 cpu) + 1 >= 2),
              # so whatever a worker returns for one column must not be shared with the next one of the same chunk
              "wide-6x40": (elems[:6], elems[:40])}
